@@ -40,6 +40,8 @@ def check(ctx, cfg):
     r5(ctx, cfg)
     r6(ctx, cfg)
     r7(ctx, cfg)
+    r8(ctx, cfg)
+    r9(ctx, cfg)
 
 
 def r7(ctx, cfg):
@@ -230,6 +232,13 @@ def r1(ctx, cfg, R="C14.R1"):
                    "a later update_rewards/slash hits `expect(\"all stakers in validator_info should exist\")`" % (
                        f.key, t["line"], "" if ok1 else " (no staker removal on the path)"), fn=f, line=t["line"],
                    sample="every non-error path passes stakers.remove/clear and VALIDATOR_INFO.save")
+        # ... and the other way round: a delegator is taken out of the staker set only where the delegation entry has just
+        # been dropped (an entry left behind is listed as a delegation of zero and is never credited rewards again)
+        for b3, t3 in staker_set_calls(P, f, ("remove",)):
+            ok3 = any(cf.dominates(b4, b3) for b4, t4 in rms)
+            ctx.ob(R, root, "staker-removal-paired-with-stakes-remove@%s" % ("%s" % t3["line"] if False else len([1 for b5, t5 in staker_set_calls(P, f, ("remove",)) if b5 < b3])), ok3,
+                   "the delegator is removed from ValidatorInfo.stakers in %s (line %d) without STAKES.remove for the delegation before it" % (f.key, t3["line"]),
+                   fn=f, line=t3["line"], sample="STAKES.remove(..) dominates stakers.remove(..)")
         for idx, (bid, t) in enumerate(store_calls(P, f, STAKES, ("save",))):
             n_sv += 1
             a = P.call_args(f, t, bid)
@@ -644,6 +653,13 @@ def r5(ctx, cfg):
     src = contains(a[4], lambda x: x[0] == "field" and x[2] == "module_addr" and is_param(x[1], "self"))
     ctx.ob(R, key, "pays(pool -> entry.delegator, entry.amount)", okm and src and is_param(a[2], "storage"),
            "payout is %s from %s" % (fmt(a[5])[:160], fmt(a[4])[:40]), fn=f, line=t["line"], sample="BankMsg::Send{to: delegator, amount: [amount]} from module_addr")
+    # ... and every matured entry with something in it is paid: the only test on the entry's amount in front of the payout is
+    # "not zero" (an inverted test pays nothing and silently drops the entry)
+    amt_conds = [c for e, c in conds if c[0] == "bool" and not q.is_derived(c) and any(popped(x, "amount") for x in c[1][1])]
+    okz = [c[1][0] for c in amt_conds] == ["is_zero"] and amt_conds[0][1][2] is False
+    ctx.ob(R, key, "every-nonzero-entry-is-paid", okz or not amt_conds,
+           "the payout is guarded by %s on the entry's amount" % [(c[1][0], c[1][2]) for c in amt_conds], fn=f, line=t["line"],
+           sample="if !amount.is_zero() { pay }" if amt_conds else "unconditional")
     # denomination is the bonded one
     okd = contains(a[5], lambda x: x[0] == "call" and x[1] == "cosmwasm_std::coin" and contains(x[2][1], lambda y: y[0] == "field" and y[2] == "bonded_denom"))
     ctx.ob(R, key, "paid-in-bonded-denom", okd, "payout denomination is not staking_info.bonded_denom", fn=f, sample="coin(amount, bonded_denom)")
@@ -707,6 +723,34 @@ def r5(ctx, cfg):
     # payout errors propagate (block update then panics: recorded in R2)
     ctx.ob(R, key, "payout-error-propagates", any(tt["callee"].get("trait") == "std::ops::FromResidual" and contains(P.call_args(f, tt, b)[0], lambda x: x[0] == "call" and x[1] == "app::CosmosRouter::execute")
                                                  for b, tt in f.calls()), "a failed payout is not propagated", fn=f, sample="router.execute(..)?")
+    # the delegation that remains is kept: process_queue drops a STAKES entry only where get_stake found none or where what
+    # it found (plus what is still unbonding) is zero; and what is still unbonding is *added* to the stake before that test
+    # (a subtraction underflows - the block update panics - as soon as more is unbonding than is staked)
+    def from_get_stake(o):
+        return contains(o, lambda x: x[0] == "call" and x[1] == SK + "get_stake")
+    for g2 in F.lexical(key):
+        for b2, t2 in g2.calls():
+            if t2["callee"]["key"] == "cw_storage_plus::Map::remove" and t2["args"] and peel(P.call_args(g2, t2, b2)[0]) == STAKES:
+                # every way to the removal passes the None edge of get_stake or the true edge of is_zero(what get_stake found ..)
+                # (edges, not dominators: `let empty = match d { Some(d) => d.amount.is_zero(), None => true }; if empty {..}`
+                # reaches the removal on two threaded paths)
+                c2 = cfg_of(g2)
+                good = set()
+                for sb in g2.order:
+                    for e2, v2, n2, tb2 in c2.switch_edges(sb):
+                        for c in q.edge_conditions(P, g2, e2):
+                            if (c[0] == "variant_in" and c[2] == ("None",) and from_get_stake(c[1])) or \
+                                    (c[0] == "bool" and c[1][0] == "is_zero" and c[1][2] is True and from_get_stake(c[1][1][0])):
+                                good.add(e2)
+                okg = bool(good) and b2 not in c2.reachable_from(c2.entry, avoid=list(good)) and b2 != c2.entry
+                ctx.ob(R, key, "delegation-entry-dropped-only-when-nothing-is-left", okg,
+                       "STAKES.remove at line %s can be reached without `get_stake(..) is None` or `(stake + still unbonding).is_zero()` having held" % t2["line"],
+                       fn=g2, line=t2["line"], sample="get_stake None | is_zero(get_stake + unbonding)")
+            if t2["callee"]["name"] in ("sub_assign", "sub", "checked_sub", "saturating_sub", "mul_assign", "mul", "div", "mul_floor") and t2["args"] and \
+                    from_get_stake(P.call_args(g2, t2, b2)[0]):
+                ctx.ob(R, key, "still-unbonding-amounts-are-added-to-the-stake", False,
+                       "%s is applied to the stake found by get_stake (line %s): only additions keep the emptiness test total" % (t2["callee"]["name"], t2["line"]),
+                       fn=g2, line=t2["line"], sample="stake.amount += sum(still unbonding)")
     # "by the first block update at or after the unbonding period": every block update runs the queue - in set_block and
     # update_block no return is reachable without passing the process_queue call, and the call comes after the new block
     # is in place (an update that leaves the time unchanged, or only bumps the height, still pays what is due: with an
@@ -742,3 +786,113 @@ def r5(ctx, cfg):
         ret = peel(P.ret(g))
         ok = ret[0] == "call" and ret[1] == key and all(peel(x)[0] == "param" for x in ret[2])
         ctx.ob(R, key2, "trait-method-delegates", ok, "Staking::process_queue for StakeKeeper returns %s" % fmt(ret)[:80], fn=g, sample="self.process_queue(api, storage, router, block)")
+
+
+def r8(ctx, cfg):
+    """"raises that delegator's delegation to that validator by the amount" / "leaves the delegation at once": the arithmetic of
+    update_stake as a table over its `sub` flag.  On every path that reaches the save of the validator's record, the
+    delegator's entry and the validator's total are each changed exactly once, by exactly the given amount, downwards when
+    `sub` and upwards otherwise (operator spelling free: `-=`, `checked_sub`, `a = a - b`)."""
+    from vlib.paths import Walker
+    F, P = cfg.facts, cfg.prov
+    R = "C14.R8"
+    key = SK + "update_stake"
+    f = ctx.need_fn(R, key)
+    if f is None:
+        return
+    if f.arg_index("sub") is None or f.arg_index("amount") is None:
+        ctx.ob(R, key, "stake-arithmetic", False, "update_stake no longer takes (amount, sub): the table over `sub` cannot be stated", fn=f, sample="-")
+        return
+    SUBS = {"sub_assign": "sub", "checked_sub": "sub", "sub": "sub", "saturating_sub": "sub?", "add_assign": "add", "checked_add": "add", "add": "add",
+            "saturating_add": "add?", "mul_assign": "mul", "mul": "mul", "mul_floor": "mul", "div": "div"}
+
+    def amount_ok(o):
+        o = peel(o)
+        if is_param(o, "amount"):
+            return True
+        return o[0] == "call" and o[1] == "cosmwasm_std::Decimal::from_ratio" and is_param(o[2][0], "amount") and peel(o[2][1]) == ("const", "int", 1)
+
+    def target(o):
+        if contains(o, lambda x: x == ("item", "staking::STAKES")):
+            return "entry.stake"
+        if contains(o, lambda x: x == ("item", "staking::VALIDATOR_INFO")):
+            return "validator.stake"
+        return None
+
+    def watch(fn, site, item):
+        if site[1] != "t" or item["k"] != "call":
+            return None
+        c = item["callee"]
+        if c["name"] in SUBS and item["args"]:
+            a = P.call_args(fn, item, site[0])
+            tg = target(a[0])
+            # only operations on the `stake` fields (rewards are C15's)
+            pl = item["args"][0].get("place", {})
+            if tg is not None and len(a) >= 2 and _mentions_field(P, fn, item["args"][0], site, "stake"):
+                return (tg, SUBS[c["name"]], "amount" if amount_ok(a[1]) else fmt(a[1])[:60])
+        if c["key"] == "cw_storage_plus::Map::save" and item["args"]:
+            a = P.call_args(fn, item, site[0])
+            if peel(a[0]) == ("item", "staking::VALIDATOR_INFO"):
+                return ("validator-saved",)
+        return None
+
+    def decide(fn, bid, t, sigma):
+        o = peel(P.operand(fn, t["discr"], (bid, "t")))
+        if is_param(o, "sub"):
+            return sigma["sub"]
+        if o[0] == "unop" and is_param(o[2], "sub"):
+            return not sigma["sub"]
+        return None
+
+    n_dec = sum(1 for bid in f.order if f.blocks[bid]["term"]["k"] == "switch" and decide(f, bid, f.blocks[bid]["term"], {"sub": True}) is not None)
+    for sub in (True, False):
+        seqs = Walker(f, {"sub": sub}, watch, None, decide=decide).run()
+        want = "sub" if sub else "add"
+        done = [s for s in seqs if ("validator-saved",) in s]
+        bad = []
+        for s in done:
+            ops = [e for e in s[:s.index(("validator-saved",))] if isinstance(e, tuple) and len(e) == 3]
+            if sorted(ops) != sorted([("entry.stake", want, "amount"), ("validator.stake", want, "amount")]):
+                bad.append(ops)
+        ok = bool(done) and not bad and n_dec >= 1
+        ctx.ob(R, key, "stake-arithmetic(sub=%s)" % str(sub).lower(), ok,
+               "with sub=%s the record saved for the validator is reached after %s; expected the delegator's entry and the validator's total each %s by exactly `amount`"
+               % (sub, bad[:2] if bad else "no path" if not done else "no decision on `sub`", "lowered" if sub else "raised"), fn=f,
+               sample="entry.stake %s= amount; validator.stake %s= amount" % ("-" if sub else "+", "-" if sub else "+"))
+
+
+def r9(ctx, cfg):
+    """the entry is dropped exactly when nothing is left of it: in update_stake STAKES.remove happens where the new stake is zero,
+    STAKES.save where it is not (the inverse keeps zero entries and - worse - drops live ones)"""
+    F, P = cfg.facts, cfg.prov
+    R = "C14.R8"
+    key = SK + "update_stake"
+    f = F.fn(key)
+    if f is None:
+        return
+    def zero_test(cs, pol):
+        return any(c[0] == "bool" and c[1][0] == "is_zero" and c[1][2] is pol and
+                   contains(c[1][1][0], lambda x: x[0] == "field" and x[2] == "stake" and contains(x[1], lambda y: y == STAKES)) for e, c in cs)
+    for nm, pol in (("remove", True), ("save", False)):
+        sites = store_calls(P, f, STAKES, (nm,))
+        ok = bool(sites) and all(zero_test(q.dominating_conditions(P, f, b), pol) for b, t in sites)
+        ctx.ob(R, key, "entry-%s-iff-stake-%s" % ("dropped" if nm == "remove" else "saved", "zero" if pol else "positive"), ok,
+               "STAKES.%s in update_stake is not under `shares.stake.is_zero()` being %s" % (nm, pol), fn=f,
+               sample="if shares.stake.is_zero() { remove } else { save }")
+
+
+def _mentions_field(P, fn, op, site, name):
+    """the operand is (a reference to) a place ending in field `name`, or a copy of such a field"""
+    if op.get("k") not in ("copy", "move"):
+        return False
+    pl = op["place"]
+    if any(e["k"] == "field" and e.get("name") == name for e in pl["p"]):
+        return True
+    if pl["p"]:
+        return False
+    for kind, db, di, x in P.defs(fn).get(pl["l"], []):
+        if kind == "assign" and x["rv"]["k"] in ("ref", "use"):
+            src = x["rv"].get("place") or x["rv"].get("op", {}).get("place")
+            if src and any(e["k"] == "field" and e.get("name") == name for e in src["p"]):
+                return True
+    return False
